@@ -15,13 +15,17 @@ MANIFEST = dict(
          "flag-to-builder mapping composed with it = the same fold on the world's rule files (decide_eq_world); one "
          "lemma per flag (--hidden, --no-ignore-dot/-vcs/-exclude/-global/-parent/-files, --no-ignore, -u/-uu/-uuu) that "
          "it removes exactly its own source; an explicitly named file is always listed; file_name = last path component "
-         "(D4 refuted on the pinned text, repaired by a fix: commit). Tie to the code: extracted model vs `rg --files` "
-         "and vs ignore::WalkBuilder on generated trees, plus an independent Python statement of the documented rules.",
+         "(D4 refuted on the pinned text, repaired by a fix: commit); add_parents and add_child_path agree on what a "
+         "repository root is for every kind of .git entry, directory or gitfile (repo_root_test_uniform). Tie to the code: extracted model vs `rg --files` "
+         "and vs ignore::WalkBuilder on generated trees, plus an independent Python statement of the documented rules, "
+         "plus real `git worktree add` trees compared with `git ls-files -o --exclude-standard`.",
     note="trusted: Coq kernel, extraction, OCaml driver, Rust harness, Python oracle. Each compiled ignore file is an "
          "abstract matcher in the theorems (literal-name rules in the generated cases). The path re-basing for "
          "directories above the search root is modelled byte for byte and tested, not proved correct: it is wrong for "
          "root '.' with dot-names and for anchored patterns below depth 1 (known finding ParentRuleRebase). The "
-         "`compiled` cache of add_parents is not modelled.",
+         "`compiled` cache of add_parents is not modelled. With --no-require-git the exclude file of a linked worktree "
+         "(gitfile root) is not found (known finding GitlinkExcludeNoRequire, excluded from decide_eq_world by a class "
+         "predicate; decide_eq_world_as_read is the full-strength form).",
     technique="Coq proof over executable model + extracted-model/rg correspondence + independent rule oracle",
     design="§7 C05")
 KNOWN_REBASE = "ParentRuleRebase"
@@ -1122,7 +1126,8 @@ def corpus_cases():
 def run(ctx):
     rng = ctx.rng
     ctx.cov["rule"] = ("a case = a generated tree (<= 24 entries, depth <= 3) with any subset of .rgignore/.ignore/.gitignore/"
-                       ".git/info/exclude at depths -2..3 (two directories above the root), global gitignore, --ignore-file, "
+                       ".git/info/exclude at depths -2..3 (two directories above the root), repository roots marked by a .git directory "
+                       "or a .git file (linked-worktree layout), global gitignore, --ignore-file, "
                        "-g, -t/-T/--type-add, --max-depth, roots '.', './', implicit, relative, absolute, several, a file; "
                        "flags from the ten filter switches. non-trivial = rg lists at least one file and at least one rule "
                        "source or flag is present; distinct by model case text.")
